@@ -1,6 +1,6 @@
 (* C01 -- every emitted static table carries a valid ACPI checksum. Statements only. *)
 From Coq Require Import NArith List.
-From ACPI Require Import Lib.Bytes Lib.Sx Lib.Machine Impl.Table Proofs.TableP Proofs.Tables.
+From ACPI Require Import Lib.Bytes Lib.Sx Lib.Machine Impl.Table Proofs.TableP Proofs.Tables Proofs.Registry.
 Import ListNotations.
 Open Scope N_scope.
 
